@@ -190,6 +190,7 @@ public:
     }
 
     slice_t& operator=(const std::initializer_list<T>& rhs) {
+        DSPLIB_ASSERT(this->size() == int(rhs.size()), "Slices size must be equal");
         std::copy(rhs.begin(), rhs.end(), this->begin());
         return *this;
     }
